@@ -6,7 +6,7 @@
 From Verif Require Import Base.Sx Model.FsCrash.
 
 Definition filed_save_protocol : protocol :=
-  [(OpOpen, Some []) (* offset.go:238 *);
+  [(OpOpen, Some []) (* offset.go:244 *);
    (OpWrite, Some [OpRemove; OpClose]) (* offset.go:292 *);
    (OpSync, Some [OpRemove; OpClose]) (* offset.go:299 *);
    (OpRename, None) (* offset.go:306 *);
@@ -18,3 +18,7 @@ Definition generic_save_protocol : protocol :=
    (OpSync, Some [OpClose]) (* offset.go:54 *);
    (OpClose, None) (* offset.go:54 (deferred) *);
    (OpRename, Some []) (* offset.go:61 *)].
+
+(* offsetDB.save keeps o.mu (which guards the shared o.buf / o.jobsSnapshot) from before it builds the buffer
+   until after the rename: Lock stmt 1, defer Unlock stmt 2, Unlock stmt -1, first use of o.buf/snapshotJobs stmt 3, Rename stmt 16, 1 Lock / 1 Unlock calls *)
+Definition save_holds_mu_until_rename : bool := true.
